@@ -22,6 +22,7 @@ Qed.
 
 Section Inv.
 Variable fresh : nat -> id.
+Variable GP : id -> Prop.
 Hypothesis fresh_inj : forall a b, fresh a = fresh b -> a = b.
 
 Definition uuids (s : cstate) : list id := map cn_uuid (cs_nodes s).
@@ -29,7 +30,7 @@ Definition uuids (s : cstate) : list id := map cn_uuid (cs_nodes s).
 Definition all_ids (s : cstate) : list id := flat_map node_ids (cs_nodes s).
 Definition IdsOK (n : nat) (l : list id) : Prop := NoDup l /\ Forall (below fresh n) l.
 Record StOK (s : cstate) : Prop := {
-  st_nodes : Forall (NodeOK fresh (cs_next s) (uuids s)) (cs_nodes s);
+  st_nodes : Forall (NodeOK fresh GP (cs_next s) (uuids s)) (cs_nodes s);
   st_ids : IdsOK (cs_next s) (all_ids s) }.
 
 (* one step of identifier accounting inside a larger list *)
@@ -107,25 +108,25 @@ Proof. intros [_ (extra & E) _ _ _ _ _ _ _ _]. rewrite E. apply incl_appl, incl_
 Lemma ext_dest_ok s s' d : ext s s' -> dest_ok (uuids s) d -> dest_ok (uuids s') d.
 Proof. intros H. apply dest_ok_mono, ext_incl, H. Qed.
 
-Lemma StOK_nth s k nd : StOK s -> nth_error (cs_nodes s) k = Some nd -> NodeOK fresh (cs_next s) (uuids s) nd.
+Lemma StOK_nth s k nd : StOK s -> nth_error (cs_nodes s) k = Some nd -> NodeOK fresh GP (cs_next s) (uuids s) nd.
 Proof. intros [H _] E. rewrite Forall_forall in H. apply H. eapply nth_error_In, E. Qed.
 
 Lemma StOK_switch s k nd cls r :
   StOK s -> nth_error (cs_nodes s) k = Some nd -> cn_body nd = BSwitch cls r -> SwOK fresh (cs_next s) (uuids s) r.
-Proof. intros H E Eb. destruct (StOK_nth _ _ _ H E) as [_ _ Hb]. rewrite Eb in Hb. inversion Hb; subst. assumption. Qed.
+Proof. intros H E Eb. destruct (StOK_nth _ _ _ H E) as [_ _ Hb _]. rewrite Eb in Hb. inversion Hb; subst. assumption. Qed.
 
 Lemma StOK_random s k nd r :
   StOK s -> nth_error (cs_nodes s) k = Some nd -> cn_body nd = BRandom r -> CatsOK fresh (cs_next s) (uuids s) (rr_cats r).
-Proof. intros H E Eb. destruct (StOK_nth _ _ _ H E) as [_ _ Hb]. rewrite Eb in Hb. inversion Hb; subst. assumption. Qed.
+Proof. intros H E Eb. destruct (StOK_nth _ _ _ H E) as [_ _ Hb _]. rewrite Eb in Hb. inversion Hb; subst. assumption. Qed.
 
 Lemma StOK_basic s k nd e :
   StOK s -> nth_error (cs_nodes s) k = Some nd -> cn_body nd = BBasic e -> dest_ok (uuids s) (x_dest e).
-Proof. intros H E Eb. destruct (StOK_nth _ _ _ H E) as [_ _ Hb]. rewrite Eb in Hb. inversion Hb; subst. assumption. Qed.
+Proof. intros H E Eb. destruct (StOK_nth _ _ _ H E) as [_ _ Hb _]. rewrite Eb in Hb. inversion Hb; subst. assumption. Qed.
 
 (* replacing a node by one with the same uuid *)
 Lemma set_node_ok s k nd nd' n' :
   StOK s -> nth_error (cs_nodes s) k = Some nd -> cn_uuid nd' = cn_uuid nd -> cs_next s <= n' ->
-  NodeOK fresh n' (uuids s) nd' -> IdStep fresh (cs_next s) n' (node_ids nd) (node_ids nd') ->
+  NodeOK fresh GP n' (uuids s) nd' -> IdStep fresh (cs_next s) n' (node_ids nd) (node_ids nd') ->
   StOK (set_node s k nd' n') /\ ext s (set_node s k nd' n').
 Proof.
   intros [Hst Hids] E Hu Hle Hok Hstep.
@@ -145,7 +146,7 @@ Qed.
 (* replacing node k and appending a node: the implicit router after a basic node *)
 Lemma set_push_StOK s k nd nd1 nn n' :
   StOK s -> nth_error (cs_nodes s) k = Some nd -> cn_uuid nd1 = cn_uuid nd -> cs_next s <= n' ->
-  NodeOK fresh n' (uuids s ++ [cn_uuid nn]) nd1 -> NodeOK fresh n' (uuids s ++ [cn_uuid nn]) nn ->
+  NodeOK fresh GP n' (uuids s ++ [cn_uuid nn]) nd1 -> NodeOK fresh GP n' (uuids s ++ [cn_uuid nn]) nn ->
   IdStep fresh (cs_next s) n' (node_ids nd) (node_ids nd1 ++ node_ids nn) ->
   StOK (push_node (set_node s k nd1 n') nn n').
 Proof.
@@ -165,7 +166,7 @@ Proof.
 Qed.
 
 Lemma push_StOK s nn n' :
-  StOK s -> cs_next s <= n' -> NodeOK fresh n' (uuids s ++ [cn_uuid nn]) nn ->
+  StOK s -> cs_next s <= n' -> NodeOK fresh GP n' (uuids s ++ [cn_uuid nn]) nn ->
   FreshList fresh (cs_next s) n' (node_ids nn) -> StOK (push_node s nn n').
 Proof.
   intros [Hst Hids] Hle H2 Hf. constructor.
@@ -283,7 +284,7 @@ Proof.
   { destruct (node_update_default fresh (cs_next s) nd d) as [[nd' n1]|e] eqn:Eu; [|discriminate].
     intros H. injection H as <-.
     pose proof (node_update_default_ids fresh _ _ _ _ _ Eu) as (_ & Hstep).
-    eapply (node_update_default_ok fresh) in Eu as (H1 & H2 & H3); [|eapply StOK_nth; eauto|exact Hd].
+    eapply (node_update_default_ok fresh GP) in Eu as (H1 & H2 & H3); [|eapply StOK_nth; eauto|exact Hd].
     eapply set_node_ok; eauto. }
   destruct (cn_body nd) as [e|cls r|r] eqn:Eb.
   - (* basic node: the implicit router *)
@@ -310,6 +311,7 @@ Proof.
         -- intros Hgv. eapply below_mono; [|apply P2, Hgv]. lia.
         -- constructor.
         -- constructor. exact A2.
+        -- intros Hgv. rewrite (P5 eq_refl) in Hgv. discriminate.
       * (* the old exit uuid is dropped; the new exit, the router's uuid and its identifiers are draws *)
         unfold node_ids at 2 3. unfold uuid_ids. cbn [cn_given cn_uuid cn_actions cn_body with_body body_ids map].
         unfold node_ids, uuid_ids. rewrite Eb. cbn [body_ids].
@@ -398,7 +400,7 @@ Proof.
     + destruct (c_variable c) as [|v0 v] eqn:Ev; [discriminate|].
       destruct (new_switch_node fresh (cs_next s) [] (v0 :: v) None None) as [[nn n1]|e] eqn:En; [|discriminate].
       pose proof (new_switch_node_ids fresh fresh_inj _ _ _ _ _ _ _ En) as (_ & Fn).
-      apply (new_switch_node_ok fresh fresh_inj _ (uuids s ++ [cn_uuid nn])) in En as (N1 & N2 & _).
+      apply (new_switch_node_ok fresh GP fresh_inj _ (uuids s ++ [cn_uuid nn])) in En as (N1 & N2 & _); [|intros Hne; contradiction].
       set (s1 := set_cgroup (push_node s nn n1) g (CGNoOp ps (Some (length (cs_nodes s))))).
       assert (Hst1 : StOK s1) by (apply StOK_set_cgroup; apply (push_StOK s nn n1); assumption).
       assert (Hext1 : ext s s1) by (apply grow_noop_ext; assumption).
